@@ -7,10 +7,14 @@
           tied to /repo by the sharing-graph correspondence of harness/props/c07.py), and
           `step` (what a call does to the world, given a table).
   Spec  = the invariant `Sep` itself (the property is a law about the implementation).
-  D     = `Step.safe`: every travelling value is deep-copied on the way or is a scalar.  Its
-          negation on the real table is the list `copyDiscipline.aliasing` — the known findings
-          `proj-id-alias`, `proj-op-alias`, `result-id-alias` (store → caller) and
-          `agg-literal-alias`, `cursor-cache-alias` (caller → caller, harmless for `Sep`).
+  D     = every well-formed step (`Step.wellFormed`: a step names final positions of the table and
+          takes each value from where its position says — no condition on what is copied).  Since
+          the fix "projections and write results hand out copies, and leave the projection
+          argument alone" (5ac4c3c) no position between the store and the caller is left without
+          a copy, so the theorems are stated for ALL operations.  The positions where the code
+          still does not copy (`aliasing_positions`) are inner positions that a later position
+          rebuilds, and the two caller → caller classes `agg-literal-alias`, `cursor-cache-alias`
+          (known findings; the store is not involved, `Sep` is not affected).
 -/
 import Proofs.C07
 
@@ -57,10 +61,10 @@ def sampleUpdateMany : Step :=
      (1, ⟨[], false, [], [("s", .piece .setValDoc (.temp 0 [0, 0]))]⟩)]
     [] []
 
-/-- **Separation is preserved by every covered step** (partial: `Step.safe` = every value that
-    enters or leaves the store is deep-copied on the way or is a scalar; arguments are objects of
-    the caller). -/
-theorem step_sep_partial (T : Table) (w : World) (s : Step) (hsep : Sep w) (hb : Bounded w)
+/-- Separation is preserved, under ANY table, by every step in which every value that enters or
+    leaves the store is deep-copied on the way or is a scalar (`Step.safe`), arguments being
+    objects of the caller. -/
+theorem step_sep_of_safe (T : Table) (w : World) (s : Step) (hsep : Sep w) (hb : Bounded w)
     (hs : s.safe T w = true) : Sep (step T w s) ∧ Bounded (step T w s) :=
   (Proofs.C07.invC_iff _).mpr
     (Proofs.C07.step_inv T w s ((Proofs.C07.invC_iff w).mp ⟨hsep, hb⟩) hs)
@@ -68,62 +72,54 @@ theorem step_sep_partial (T : Table) (w : World) (s : Step) (hsep : Sep w) (hb :
 example : Sep sampleWorld ∧ Bounded sampleWorld ∧
     sampleUpdateMany.safe copyDiscipline sampleWorld = true := by decide +kernel
 
-/-- The full-strength statement: EVERY step of the real table preserves separation. -/
-def step_sep_full : Prop :=
-  ∀ (w : World) (s : Step), Sep w → Bounded w → s.callerOwns w = true →
-    Sep (step copyDiscipline w s)
+/-- **Separation is preserved by EVERY step of the code's table**: whatever well-formed step
+    (any positions of any operation, any values — embedded-document `_id`s, projected arrays of
+    sub-documents, …) runs in a separated world, the world stays separated. -/
+theorem step_sep (w : World) (s : Step) (hsep : Sep w) (hb : Bounded w)
+    (hw : s.wellFormed = true) (hc : s.callerOwns w = true) :
+    Sep (step copyDiscipline w s) ∧ Bounded (step copyDiscipline w s) :=
+  step_sep_of_safe copyDiscipline w s hsep hb (Proofs.C07.wellFormed_safe w s hw hc)
 
-/-- `find_one({}, {'a': 1})` on a document whose `_id` is an embedded document: the projection
-    re-attaches the stored `_id` object (collection.py:1214) -/
+/-- `find_one({}, {'a': {'$slice': 1}})` on a document whose `_id` is an embedded document: the
+    projection re-attaches `_id` and takes the array out of the stored document -/
 def sampleProjectedRead : Step :=
   .read [.node true [("_id", .piece .projId (.store 0 [0])),
-                     ("a", .piece .projField (.store 0 [1]))]]
+                     ("a", .node false [("", .piece .projOpStored (.store 0 [1, 0]))])]]
 
-/-- It is false of the code as it stands (known finding `proj-id-alias`; the same witness is
-    replayed on the real code by the check). -/
-theorem step_sep_full_fails : ¬ step_sep_full := by
-  intro h
-  have := h sampleWorld sampleProjectedRead (by decide +kernel) (by decide +kernel) (by decide +kernel)
-  exact absurd this (by decide +kernel)
-
-/-- … and the alias is harmful: the caller editing what `find_one` returned edits the stored
-    document (the marker key shows up in the store). -/
-theorem alias_reaches_store :
-    ((step copyDiscipline sampleWorld sampleProjectedRead).mutate 1
-        (scribbleFn [] [("marker", .null)])).store
-      ≠ (step copyDiscipline sampleWorld sampleProjectedRead).store := by
-  intro h
-  have := congrArg (fun st => st.map HVal.size) h
-  revert this
-  decide +kernel
+example : Sep sampleWorld ∧ Bounded sampleWorld ∧ sampleProjectedRead.wellFormed = true ∧
+    sampleProjectedRead.callerOwns sampleWorld = true ∧
+    sampleUpdateMany.wellFormed = true := by decide +kernel
 
 /-! ### operations whose row copies at every position -/
 
 /-- **`step_sep` for every operation whose discipline row uses a copying primitive at every
-    position**: a step that stays within the final positions of such an operation preserves
-    separation. -/
+    position** (any table): a step that stays within the final positions of such an operation
+    preserves separation. -/
 theorem op_step_sep (T : Table) (op : Op) (hop : op.copying T = true) (w : World) (s : Step)
     (hsep : Sep w) (hb : Bounded w) (hw : s.within (op.rows.filter Pos.final) = true)
     (hc : s.callerOwns w = true) : Sep (step T w s) ∧ Bounded (step T w s) :=
-  step_sep_partial T w s hsep hb
+  step_sep_of_safe T w s hsep hb
     (Proofs.C07.within_safe T _ (Proofs.C07.copying_rows T op hop) w s hw hc)
 
 example : Op.updateMany.copying copyDiscipline = true ∧ Sep sampleWorld ∧ Bounded sampleWorld ∧
     sampleUpdateMany.within (Op.updateMany.rows.filter Pos.final) = true ∧
     sampleUpdateMany.callerOwns sampleWorld = true := by decide +kernel
 
-/-- Under the real table these are exactly the operations that copy everywhere … -/
-theorem copying_ops :
-    Op.all.filter (Op.copying copyDiscipline) =
-      [.updateOne, .updateMany, .replaceOne, .deleteOne, .deleteMany, .countDocuments, .find,
-       .findOne, .findOneAndUpdate, .findOneAndReplace, .findOneAndDelete, .distinct, .aggregate,
-       .cursorReread] := by decide
+/-- Under the real table EVERY operation copies at every final position that touches the
+    store. -/
+theorem copying_ops : Op.all.filter (Op.copying copyDiscipline) = Op.all := by decide
 
-/-- … and these are the positions where the code does not copy (the known findings). -/
+/-- The positions where the code does not copy: three inner positions (the document handed to
+    `_insert`, the seed and `_id` of an upsert — all rebuilt by `_insert` before they are stored)
+    and the two caller → caller classes (known findings `agg-literal-alias`,
+    `cursor-cache-alias`; the store is not involved). -/
 theorem aliasing_positions :
-    copyDiscipline.aliasing =
-      [.insertArg, .upsertSeed, .upsertId, .projId, .projOpStored, .insertedId, .upsertedId, .aggLiteral,
-       .cursorCache] := by decide
+    copyDiscipline.aliasing = [.insertArg, .upsertSeed, .upsertId, .aggLiteral, .cursorCache] := by
+  decide
+
+/-- none of them lies between the store and the caller -/
+theorem no_store_caller_alias :
+    ∀ p, p ∈ copyDiscipline.aliasing → p.final = false ∨ p.flow = .callerToCaller := by decide
 
 /-! ### histories -/
 
@@ -146,19 +142,34 @@ def sampleHistory : List Step :=
     .read [.piece .findDoc (.store 0 []), .piece .findDoc (.store 1 [])],
     .scribble 1 [] [("", .str "scribbled")] ]
 
-/-- **Every world reachable by covered steps is separated** (induction over histories). -/
-theorem reachable_sep (T : Table) (steps : List Step) (h : safeRun T World.empty steps = true) :
-    Sep (run T World.empty steps) ∧ Bounded (run T World.empty steps) :=
-  (Proofs.C07.invC_iff _).mpr (Proofs.C07.run_inv T steps _ Proofs.C07.invC_empty h)
+/-- **Every world reachable through the API is separated** (induction over histories): any
+    history of well-formed steps, of any operations, under the code's table. -/
+theorem reachable_sep (steps : List Step) (h : wfRun copyDiscipline World.empty steps = true) :
+    Sep (run copyDiscipline World.empty steps) ∧ Bounded (run copyDiscipline World.empty steps) :=
+  (Proofs.C07.invC_iff _).mpr (Proofs.C07.run_inv copyDiscipline steps _ Proofs.C07.invC_empty
+    (Proofs.C07.wfRun_safeRun steps _ h))
 
-example : safeRun copyDiscipline World.empty sampleHistory = true := by decide +kernel
+example : wfRun copyDiscipline World.empty (sampleHistory ++ [sampleProjectedRead]) = true := by
+  decide +kernel
 
 /-- the same from any separated world -/
-theorem reachable_sep_from (T : Table) (w : World) (steps : List Step) (hsep : Sep w)
+theorem reachable_sep_from (w : World) (steps : List Step) (hsep : Sep w) (hb : Bounded w)
+    (h : wfRun copyDiscipline w steps = true) :
+    Sep (run copyDiscipline w steps) ∧ Bounded (run copyDiscipline w steps) :=
+  (Proofs.C07.invC_iff _).mpr
+    (Proofs.C07.run_inv copyDiscipline steps w ((Proofs.C07.invC_iff w).mp ⟨hsep, hb⟩)
+      (Proofs.C07.wfRun_safeRun steps w h))
+
+example : Sep sampleWorld ∧ Bounded sampleWorld ∧
+    wfRun copyDiscipline sampleWorld [sampleUpdateMany, sampleProjectedRead] = true := by
+  decide +kernel
+
+/-- under any table, for histories of steps that copy (used below to show which copies are
+    needed) -/
+theorem reachable_sep_of_safe (T : Table) (w : World) (steps : List Step) (hsep : Sep w)
     (hb : Bounded w) (h : safeRun T w steps = true) : Sep (run T w steps) ∧ Bounded (run T w steps) :=
   (Proofs.C07.invC_iff _).mpr
     (Proofs.C07.run_inv T steps w ((Proofs.C07.invC_iff w).mp ⟨hsep, hb⟩) h)
-
 
 example : Sep sampleWorld ∧ Bounded sampleWorld ∧
     safeRun copyDiscipline sampleWorld [sampleUpdateMany, .read [.piece .findDoc (.store 1 [])]] = true := by
@@ -195,6 +206,32 @@ theorem per_document_copy_needed :
     ¬ Sep (step sharedOperandTable sampleWorld sampleUpdateMany) ∧
     Sep (step copyDiscipline sampleWorld sampleUpdateMany) := by decide +kernel
 
+/-- Likewise for the way out: the table in which a projection re-attaches the stored `_id` as it
+    is and takes a `$slice`d field out of the stored document (the behaviour before the fix
+    5ac4c3c) hands stored objects to the caller — and the caller editing what `find_one` returned
+    then edits the stored document. -/
+def uncopiedProjectionTable : Table where
+  disc
+    | .projId => [.noCopy]
+    | .projOpStored => [.noCopy]
+    | p => copyDiscipline.disc p
+
+theorem projection_copy_needed :
+    ¬ Sep (step uncopiedProjectionTable sampleWorld sampleProjectedRead) ∧
+    ((step uncopiedProjectionTable sampleWorld sampleProjectedRead).mutate 1
+        (scribbleFn [] [("marker", .null)])).store
+      ≠ (step uncopiedProjectionTable sampleWorld sampleProjectedRead).store ∧
+    Sep (step copyDiscipline sampleWorld sampleProjectedRead) ∧
+    ((step copyDiscipline sampleWorld sampleProjectedRead).mutate 11
+        (scribbleFn [] [("marker", .null)])).store
+      = (step copyDiscipline sampleWorld sampleProjectedRead).store := by
+  refine ⟨by decide +kernel, ?_, by decide +kernel, ?_⟩
+  · intro h
+    have := congrArg (fun st => st.map HVal.size) h
+    revert this
+    decide +kernel
+  · exact mutate_held_noop _ 11 _ (by decide +kernel) (by decide +kernel)
+
 /-! ### arguments -/
 
 /-- **Calls do not modify their arguments**: writes and reads leave every object the caller holds
@@ -217,24 +254,11 @@ theorem callee_write_only (T : Table) (w : World) (id : Nat) (keep : List (Optio
 
 example : ∃ v, sampleWorld.held[0]? = some v ∧ 3 ∉ v.ids := ⟨_, rfl, by decide +kernel⟩
 
-/-- … and only two argument positions of the API have such a step: the document of an insert
-    (the documented `_id` write) and — known finding `proj-arg-mutated` — the projection
-    dictionary of a projected read. -/
-theorem args_unchanged_partial (op : Op) (role : ArgRole) :
+/-- … and only one argument position of the API has such a step: the document of an insert (the
+    documented `_id` write).  Every other argument of every operation is left alone. -/
+theorem arg_effects (op : Op) (role : ArgRole) :
     argEffect op role = .untouched ∨
-    ((op = .insertOne ∨ op = .insertMany) ∧ role = .document ∧ argEffect op role = .addsId) ∨
-    ((op = .findProjected ∨ op = .findOneAndProjected) ∧ role = .projection ∧
-      argEffect op role = .popsAndRestores) := by
+    ((op = .insertOne ∨ op = .insertMany) ∧ role = .document ∧ argEffect op role = .addsId) := by
   cases op <;> cases role <;> simp [argEffect]
-
-/-- the full statement (no argument is ever edited except the inserted document) … -/
-def args_unchanged_full : Prop :=
-  ∀ op role, argEffect op role = .untouched ∨ argEffect op role = .addsId
-
-/-- … fails on the projection argument -/
-theorem args_unchanged_full_fails : ¬ args_unchanged_full := by
-  intro h
-  have := h .findProjected .projection
-  simp [argEffect] at this
 
 end MongoModel.Props.C07
